@@ -170,6 +170,8 @@ func (c *Collection) add(key string, exp Exp, val []byte, isJSON bool) (added bo
 			if err = scan(row, &revSeqNo); err != nil {
 				return
 			}
+		} else {
+			return // nothing was written: there is no mutation to post
 		}
 
 		e = &event{
